@@ -28,7 +28,7 @@ pub enum Entry {
 #[derive(Clone, Debug, Serialize, Deserialize)]
 pub struct Exec {
     pub hasher: (u8, u64),
-    /// 0 identity, 1 u64 relabelling, 2 fixed-width String relabelling
+    /// 0 identity, 1 u64 relabelling, 2 fixed-width String relabelling, 3 items with colliding Hash
     pub relabel: u8,
     pub relabel_seed: u64,
     /// run this many times within the same caller (map counter advances)
@@ -59,7 +59,7 @@ fn relabel_map(seq: &SeqCase, seed: u64) -> BTreeMap<u32, u64> {
 }
 
 const WORDS: [&str; 10] = ["a", "bb", "ccc", "x1", "foo", "bar", "q", "zz", "h\u{e9}", "\u{65e5}\u{672c}"];
-const CHARS: [char; 10] = ['a', 'b', 'c', ' ', 'd', '\n', '\u{e9}', 'e', '\u{65e5}', 'f'];
+const CHARS: [char; 14] = ['a', 'b', 'c', ' ', 'd', '\n', '\u{e9}', 'e', '\u{65e5}', 'f', '\u{a0}', '\r', '\u{2003}', '\u{1f642}'];
 
 fn tok(entry: Entry, x: u32) -> String {
     match entry {
@@ -74,17 +74,31 @@ fn tok(entry: Entry, x: u32) -> String {
     }
 }
 
+/// Separators between words: ASCII and non-ASCII whitespace, so that the str
+/// and [u8] tokenizers must agree on what whitespace is.
+const SEPS: [&str; 12] = [
+    " ", "\n", " ", "\t", "\u{a0}", " ", "\u{2003}", "\u{85}", "\u{b}", "\u{3000}", "\r\n", "  ",
+];
+/// Line contents may contain Unicode line separators that are not line breaks
+/// for this crate.
+const LINE_EXTRA: [&str; 6] = ["", "", " x", "\u{2028}y", "\u{85}", "\u{b}z"];
+
 fn build_text(entry: Entry, xs: &[u32]) -> String {
     let mut s = String::new();
     for (i, &x) in xs.iter().enumerate() {
         match entry {
             Entry::TextLines => {
                 s.push_str(&tok(entry, x));
-                s.push_str(if x % 5 == 0 { "\r\n" } else { "\n" });
+                s.push_str(LINE_EXTRA[(x as usize) % LINE_EXTRA.len()]);
+                s.push_str(match x % 5 {
+                    0 => "\r\n",
+                    1 => "\r",
+                    _ => "\n",
+                });
             }
             Entry::TextWords => {
                 if i > 0 {
-                    s.push(' ');
+                    s.push_str(SEPS[(x as usize) % SEPS.len()]);
                 }
                 s.push_str(&tok(entry, x));
             }
@@ -92,6 +106,20 @@ fn build_text(entry: Entry, xs: &[u32]) -> String {
         }
     }
     s
+}
+
+/// An item whose `Hash` legitimately collides for unequal items (hashes only
+/// `v % modulus`); equality and order are those of `v`.
+#[derive(Clone, Copy, Debug, PartialEq, Eq, PartialOrd, Ord)]
+pub struct Coll {
+    pub v: u64,
+    pub modulus: u64,
+}
+
+impl std::hash::Hash for Coll {
+    fn hash<H: std::hash::Hasher>(&self, state: &mut H) {
+        state.write_u64(self.v % self.modulus);
+    }
 }
 
 #[derive(Debug, PartialEq, Clone)]
@@ -147,10 +175,19 @@ fn run_once(seq: &SeqCase, entry: Entry, ex: &Exec) -> Result<Outcome, String> {
                     let n: Vec<u64> = seq.new.iter().map(|x| m[x]).collect();
                     go!(o, n)
                 }
-                _ => {
+                2 => {
                     let m = relabel_map(seq, ex.relabel_seed);
                     let o: Vec<String> = seq.old.iter().map(|x| format!("{:020}", m[x])).collect();
                     let n: Vec<String> = seq.new.iter().map(|x| format!("{:020}", m[x])).collect();
+                    go!(o, n)
+                }
+                _ => {
+                    // same equalities and order, colliding hashes
+                    let m = relabel_map(seq, ex.relabel_seed);
+                    let modulus = 1 + ex.relabel_seed % 4;
+                    let c = |x: &u32| Coll { v: m[x], modulus };
+                    let o: Vec<Coll> = seq.old.iter().map(c).collect();
+                    let n: Vec<Coll> = seq.new.iter().map(c).collect();
                     go!(o, n)
                 }
             }
@@ -198,6 +235,7 @@ const F_RELABEL_STRING: usize = 6;
 const F_REPEAT_SAME_CALLER: usize = 7;
 const F_ORDER_CHANGED: usize = 8;
 const F_REAL_RANDOMSTATE: usize = 9;
+const F_RELABEL_COLLIDING: usize = 10;
 
 impl C20 {
     fn exec_inner(&self, case: &Case, out: &mut RunOut) -> Result<(), Fail> {
@@ -252,6 +290,7 @@ impl C20 {
                 match ex.relabel {
                     1 => out.faults[F_RELABEL_U64] += 1,
                     2 => out.faults[F_RELABEL_STRING] += 1,
+                    3 => out.faults[F_RELABEL_COLLIDING] += 1,
                     _ => {}
                 }
                 if rep > 0 {
@@ -345,6 +384,7 @@ impl Prop for C20 {
             "repeat_in_same_caller(map counter advanced)",
             "map_iteration_order_differed_from_reference",
             "real_RandomState_on_fresh_thread(unjudged)",
+            "relabel_colliding_hash(unequal items, equal hashes)",
         ]
     }
     fn components(&self) -> Value {
@@ -394,7 +434,7 @@ impl Prop for C20 {
             .map(|_| Exec {
                 hasher: draw_hasher(rng, allow_deg),
                 relabel: match entry {
-                    Entry::Slices | Entry::Distinct => rng.below(3) as u8,
+                    Entry::Slices | Entry::Distinct => rng.below(4) as u8,
                     _ => 0,
                 },
                 relabel_seed: rng.next(),
